@@ -13,7 +13,9 @@ import (
 	"fmt"
 	"io"
 	"os"
+	"runtime/pprof"
 	"strings"
+	"time"
 
 	"github.com/relex/gotils/logger"
 	"github.com/relex/slog-agent/defs"
@@ -40,6 +42,17 @@ func setup() error {
 	return loadRecordMenu()
 }
 
+// pairKind: the kinds used for two-site mutants
+func pairKind(kind string) bool {
+	switch kind {
+	case "key-unknown", "key-deleted", "key-duplicated", "unknown-name", "empty", "null", "to-mapping", "to-sequence",
+		"map-empty", "map-null", "seq-empty", "seq-null", "seq-append-null", "seq-append-unknown", "element-deleted", "element-duplicated",
+		"num:0", "num:9223372036854775807", "num:99999999999999999999", "tmpl:${task[-99999999999999999999:]}", "tmpl:$zzUnknown", "pat:(", "pat:*", "pat:(?P<zzUnknown>.)":
+		return true
+	}
+	return false
+}
+
 func bump(ctx *seq.Ctx, name string) {
 	if ctx.Groups != nil {
 		ctx.Groups[name]++
@@ -57,7 +70,19 @@ func enumerate(ctx *seq.Ctx) {
 		ctx.Case("setup", false, "", func() (string, string) { return "harness:setup", err.Error() })
 		return
 	}
-	opt := evalOptions{orchestrate: true, listen: true}
+	opt := evalOptions{orchestrate: true, listen: true, twoTags: true}
+	// quick tier: a mutant inside a transform list is instantiated inline only (the pipelines of phase B call exactly
+	// the same constructors); everything else, and everything in the thorough tier, also goes through phase B
+	optFor := func(path string) evalOptions {
+		o := opt
+		if !ctx.Thorough() {
+			o.twoTags = false
+			if strings.Contains(path, ":transformations/") || strings.Contains(path, "/extractions/") {
+				o.orchestrate, o.listen = false, false
+			}
+		}
+		return o
+	}
 
 	// ---- documents that are no configuration at all
 	ctx.Group("document")
@@ -78,6 +103,7 @@ func enumerate(ctx *seq.Ctx) {
 	}
 
 	// ---- invalid side
+	seenText := map[string]bool{}
 	for bi := range bases {
 		if ctx.Stop() {
 			return
@@ -92,7 +118,8 @@ func enumerate(ctx *seq.Ctx) {
 			outcome, key, msg := evaluate(b.text, "", opt)
 			bump(ctx, "outcome/base/"+outcome)
 			if outcome == outRejected {
-				return "harness:base-rejected", "base file " + b.name + " is rejected by the loader: the harness' idea of a valid file is wrong"
+				_, _, _, err := parseOnly(b.text)
+				return "valid-rejected:base", fmt.Sprintf("base file %s (the sample configuration, or a minimal file made of parts of it) is rejected: %v", b.name, err)
 			}
 			return key, msg
 		})
@@ -107,18 +134,18 @@ func enumerate(ctx *seq.Ctx) {
 			outcome, key, msg := evaluate(text, "", opt)
 			bump(ctx, "outcome/base/"+outcome)
 			if outcome == outRejected {
-				return "harness:roundtrip-rejected", "base file " + b.name + " re-rendered from its node tree is rejected"
+				_, _, _, err := parseOnly(text)
+				return "harness:roundtrip-rejected", fmt.Sprintf("base file %s re-rendered from its node tree is rejected: %v", b.name, err)
 			}
 			return key, msg
 		})
-		enumerateMutants(b, root, func(id string) bool { return ctx.Mine() && (onlyCase == "" || onlyCase == b.name+"|"+id) }, func(m mutant) {
+		runMutant := func(group string, id string, m mutant, nilHolder func() string) {
 			if stop := ctx.Stop(); m.doc == nil || stop {
 				ctx.Skip()
 				return
 			}
-			ctx.Group("mutant/" + b.family + "/" + m.family)
+			ctx.Group(group)
 			text, rerr := renderYAML(m.doc)
-			id := b.name + "|" + m.id
 			ctx.Case(id, true, text, func() (string, string) {
 				if rerr != nil {
 					return "harness:render", rerr.Error()
@@ -127,14 +154,39 @@ func enumerate(ctx *seq.Ctx) {
 				if err := yaml.Unmarshal([]byte(text), &check); err != nil {
 					return "harness:render-invalid-yaml", err.Error()
 				}
-				outcome, key, msg := evaluate(text, firstNilHolder(m.doc), opt)
+				outcome, key, msg := evaluate(text, nilHolder(), optFor(id))
 				bump(ctx, "outcome/"+m.family+"/"+outcome)
 				if statsFile != nil {
 					fmt.Fprintf(statsFile, "%s\t%s\t%s\t%s\t%s\n", b.name, m.leaf, m.id[strings.LastIndex(m.id, "|")+1:], outcome, key)
 				}
 				return key, msg
 			})
+		}
+		eb := *b
+		if ctx.Thorough() && b.name != "sample" && !seenText[b.text] {
+			eb.focus = nil // thorough: every node of every distinct minimal base, not only the part the base was written for
+		}
+		seenText[b.text] = true
+		if !ctx.Thorough() && (b.name == "out-fluentd-Forward" || b.name == "out-fluentd-PackedForward") {
+			eb.focus = []string{"outputBufferPairs/[0]/output/messageMode", "outputBufferPairs/[0]/output/type"}
+		}
+		enumerateMutants(&eb, root, !ctx.Thorough(), nil, func(id string) bool { return ctx.Mine() && (onlyCase == "" || onlyCase == b.name+"|"+id) }, func(m mutant) {
+			runMutant("mutant/"+b.family+"/"+m.family, b.name+"|"+m.id, m, func() string { return firstNilHolder(m.doc) })
 		})
+
+		// thorough: two mutations at once, structural kinds only, inside the focus of the minimal transform / matcher /
+		// rewriter / orchestrator bases
+		if ctx.Thorough() && b.name != "sample" && len(b.focus) > 0 && b.family != "schema" && b.family != "input" && b.family != "output" {
+			enumerateMutants(b, root, false, pairKind, func(string) bool { return true }, func(m1 mutant) {
+				b2 := *b
+				enumerateMutants(&b2, m1.doc, false, pairKind, func(id2 string) bool {
+					return ctx.Mine() && (onlyCase == "" || onlyCase == b.name+"|"+m1.id+"||"+id2)
+				}, func(m2 mutant) {
+					m2.family = "pair"
+					runMutant("mutant2/"+b.family, b.name+"|"+m1.id+"||"+m2.id, m2, func() string { return firstNilHolder(m2.doc) })
+				})
+			})
+		}
 	}
 
 	// ---- valid side
@@ -150,7 +202,11 @@ func enumerate(ctx *seq.Ctx) {
 		}
 		ctx.Group("valid/" + grp)
 		ctx.Case("valid/"+v.id, true, v.text, func() (string, string) {
-			outcome, key, msg := evaluate(v.text, "", opt)
+			vopt := opt
+			if !ctx.Thorough() && grp != "leaf" && grp != "orch-out" {
+				vopt.orchestrate, vopt.listen = false, false
+			}
+			outcome, key, msg := evaluate(v.text, "", vopt)
 			bump(ctx, "outcome/valid/"+outcome)
 			if outcome == outRejected {
 				_, _, _, err := parseOnly(v.text)
@@ -190,31 +246,52 @@ func findOnlyCase() {
 }
 
 func main() {
+	if os.Getenv("C16_TRACE") != "" {
+		t0 := time.Now()
+		fmt.Fprintf(os.Stderr, "trace main start\n")
+		defer func() { fmt.Fprintf(os.Stderr, "trace main end %v\n", time.Since(t0)) }()
+	}
+	if p := os.Getenv("C16_PROF"); p != "" && strings.Contains(strings.Join(os.Args[1:], " "), "-shard") {
+		f, _ := os.Create(p)
+		pprof.StartCPUProfile(f)
+		defer pprof.StopCPUProfile()
+	}
 	findOnlyCase()
+	nMini, nSmall := 0, 0
+	if err := loadRecordMenu(); err == nil {
+		nSmall = len(smallMenu())
+	}
+	if bases, err := allBases(); err == nil {
+		nMini = len(bases) - 1
+	}
 	if !strings.Contains(strings.Join(os.Args[1:], " "), "-shard") {
 		sweepScratch()
 	}
 	seq.Main(&seq.Config{
 		Property: "C16",
 		Level:    "exploration",
-		Rule: "invalid side: for every base file (testdata/config_sample.yml and one minimal file per transform type, rewriter chain, matcher operator, orchestrator type, " +
-			"output type/message mode, input, schema) every YAML node inside the base's focus is a site (mapping key, mapping value, sequence, sequence element, scalar); " +
-			"at every site every kind of the fixed kind table is substituted, one mutation per case: key unknown/empty/null/number/upper-cased/deleted(section deleted)/duplicated/type-not-first; " +
-			"mapping or sequence replaced by the other node kinds, emptied, nulled, wrapped, unwrapped, with unknown/null/empty/unknown-type elements appended or prepended; element deleted/duplicated; " +
-			"scalar replaced by unknown name, empty, blank, null, mapping, sequence, 12 numbers (0, negative, 101, >int32, int64 extremes, out of int64 range, float, hex, bool), " +
-			"7+14*names malformed/unknown/out-of-range templates, 33 malformed or boundary-less regex/glob/extract patterns (incl. unknown named capture), 22 malformed sizes/durations/addresses; " +
-			"match expressions additionally with each of 14 operator tags (with the original and with an empty expression). " +
-			"valid side: bounded grammar: 27 leaf transforms x {alone, ordered pairs, inside if/switch/block with each of 10 match expressions, two container levels} at the transformations and the extractions position, " +
-			"4 orchestrators x 17 outputs (3 fluentd modes x 5 rewriter chains, 2 datadog). quick tier enumerates every second/third combination of the pair and depth-1 products, thorough all, and thorough lifts the focus restriction of the minimal bases. " +
-			"every case: render to a file, run.ParseConfigFile must return; error => done; accepted => parser+extractions, transforms, serializers, chunk makers, forwarder objects built inline and 37 records x 2 rounds + 4 synthetic field fillings processed, " +
-			"chunks decoded; then the configured orchestrator started with real pipelines and hybrid bufferers on a scratch root, records fed through a sink, inputs constructed and started on an ephemeral port, shutdown. " +
-			"non-trivial = every mutant (all are well-formed YAML and reach the typed decoder and VerifyConfig); outcome/* groups count accepted vs rejected per kind family.",
+		Rule: fmt.Sprintf("invalid side: for every base file (testdata/config_sample.yml and %d minimal files: one per transform type, matcher operator, rewriter chain, orchestrator type, "+
+			"output type/message mode, input, schema) every YAML node inside the base's focus is a site (mapping key, mapping value, sequence, sequence element, scalar); "+
+			"at every site every applicable kind of the fixed kind table is substituted, one mutation per case: key unknown/empty/null/number/upper-cased/deleted(=section deleted)/duplicated/type-not-first; "+
+			"mapping or sequence replaced by the other node kinds, emptied, nulled, wrapped, unwrapped, with unknown/null/empty/unknown-type elements appended or prepended; element deleted/duplicated; "+
+			"scalar replaced by unknown name, empty, blank, null, mapping, sequence, 12 numbers (0, negative, 101, >int32, int64 extremes, out of int64 range, float, hex, bool), "+
+			"7+14*names malformed/unknown-variable/out-of-range-slice templates, 33 malformed or boundary-less regex/glob/extract patterns (incl. unknown named capture), 22 malformed sizes/durations/addresses; "+
+			"match expressions additionally with each of 14 operator tags (with the original and with an empty expression). quick: scalar families restricted by leaf role (enumerations and free string lists: generic kinds only; "+
+			"schema-field references: generic+number+template), Forward/PackedForward bases only at messageMode/type; thorough: every kind at every scalar, focus lifted for every distinct minimal base, "+
+			"plus two-site mutants (24 structural kinds squared) inside the focus of the transform/matcher/rewriter/orchestrator minimal bases. "+
+			"valid side: bounded grammar: %d leaf transforms x {alone, ordered pairs, inside if/switch/block with each of %d match expressions, two container levels} at the transformations and the extractions position, "+
+			"4 orchestrators x 17 outputs (3 fluentd modes x 5 rewriter chains, 2 datadog); quick enumerates every third pair and every second depth-1 combination, thorough all. "+
+			"every case: render to a file, run.ParseConfigFile must return; error => done; accepted => parser+extractions, transforms, serializers, chunk makers, forwarder objects built inline and %d records (+%d on a second round) + 5 synthetic field fillings x 2 processed, "+
+			"chunks decoded; then (quick: except for mutants inside a transform list) the configured orchestrator started with real pipelines and hybrid bufferers on a scratch root, %d records fed through a sink, inputs constructed and started on an ephemeral port, shutdown. "+
+			"non-trivial = every case (all mutants are well-formed YAML and reach the typed decoder and VerifyConfig); outcome/* groups count accepted vs rejected vs violation per kind family.",
+			nMini, len(validLeaves), len(validMatches), len(recordMenu), nSmall, nSmall),
 		Assumptions: []string{
-			"one mutation per case (single-site substitution); multi-site interactions only on the valid side",
-			"whether an unknown name in hiddenFields, an odd but parseable upstream address, a negative duration or an unusable rootPath must be rejected is not documented: accepted or rejected are both fine as long as nothing panics",
+			"one mutation per case (single-site substitution) in quick; two-site only for structural kinds on the minimal bases in thorough; multi-site interactions otherwise only on the valid side",
+			"whether an unknown name in hiddenFields, a missing inputs section, an odd but parseable upstream address, a negative duration, an empty output name or an unusable rootPath must be rejected is not documented: accepted or rejected are both fine as long as nothing panics",
 			"buffer rootPath is re-rooted below a scratch directory and the listen address replaced by 127.0.0.1:0 before instantiation: file-system and port availability are not properties of the file",
 			"the network forwarder is constructed but never started (consumer override acknowledges chunks), as in the repository's own integration tests",
 			"defs.InputLogMaxMessageBytes is lowered to 128 KiB and defs.BufferMaxNumChunksInQueue to 2000 in the harness process to make buffer allocation cheap; menu records are < 40 KiB and a case produces a handful of chunks",
+			"schema/maxFields above 2^20 is not instantiated (16 bytes x maxFields per record): acceptance of such a value is reported as accepted-unbounded:schema.maxFields",
 			"a panic on a pipeline goroutine kills the worker process; seq attributes it to the case in flight (key fatal:*)",
 			"valid-side menus use only parameter values that appear in config_sample.yml comments or package tests (drop percentage 0 is documented as allowed by the sample comment but rejected by the code: not part of the menu)",
 		},
